@@ -5,19 +5,19 @@ ROOT = os.path.dirname(os.path.dirname(os.path.abspath(__file__)))
 
 TRUST = "trusted base: the harness's own reference model (8086 manual; ALU double-implemented and self-checked at start-up), rustc, the hook records of the verif_hooks feature for CLI-plane checks; held only on the executions generated"
 C = {
- "C01": ("reference-model monitor, exhaustive 8-bit sweep + 16-bit lattice + random, whole-state diff",
+ "C01": ("reference-model monitor, exhaustive 8-bit sweep + 16-bit lattice + random, whole-state diff; lock-step and mixed-family instruction histories; operands aimed at the end of memory",
          "every ADD/ADC/SUB/SBB/CMP/INC/DEC/NEG executed (function, IR-instruction and source planes) is compared with an independent 8086 ALU model on result, all six flags and the whole rest of the machine state; all 2^16 byte pairs x carry-in are swept exhaustively, words on a boundary lattice plus random (thorough: all 2^32 word pairs)", "6 C01"),
- "C02": ("reference-model monitor, exhaustive value x count sweep (0..255), whole-state diff",
+ "C02": ("reference-model monitor, exhaustive value x count sweep (0..255), whole-state diff; lock-step, call-order and mixed-family instruction histories",
          "logic ops, NOT and the 7 shifts/rotates are compared with an iterated single-bit-step reference for every 8-bit value x every count 0..255 x carry-in, 16-bit lattice x all counts (thorough: all 65536 words); a panic for any count is a violation", "6 C02"),
- "C03": ("reference-model monitor, exhaustive byte forms + adjust instructions, lattice/random word forms, CLI divide-error runs",
+ "C03": ("reference-model monitor, exhaustive byte forms + adjust instructions, lattice/random word forms, lock-step and mixed-family histories, CLI divide-error runs",
          "MUL/IMUL/DIV/IDIV byte forms over all 2^16 AX x 256 operands, adjust instructions over all AX x AF x CF, word forms on a lattice + random 48-bit triples; INT 0 outcome and unchanged registers on divide error; divide-error programs through the real binary", "6 C03"),
  "C04": ("reference-model monitor of effective addresses: memory-diff for stores, position-dependent pattern for loads, hostile segment/offset states",
          "every addressing shape x override x base/index x displacement x access kind is executed under register states that wrap at 2^16 and 2^20; the set of changed cells must equal the predicted set", "6 C04"),
- "C05": ("lock-step reference stack/transfer model over random operation histories, whole-state diff after every step",
+ "C05": ("lock-step reference stack/transfer model over random operation histories (own family and all 13 instruction classes mixed), whole-state diff after every step",
          "MOV/XCHG/PUSH/POP/PUSHF/POPF/LAHF/SAHF/XLAT in every operand-kind pair, random push/pop histories, compared after every step with a reference machine", "6 C05"),
- "C06": ("exhaustive predicate sweep: every jump/loop spelling x all 2^16 flag words (x all CX for the LOOP family)",
+ "C06": ("exhaustive predicate sweep: every jump/loop spelling x all 2^16 flag words (x all CX for the LOOP family); whole programs through the real driver in five placements incl. repeated activation and beyond instruction index 65535",
          "each mnemonic spelling is assembled by the real assembler and the emitted line executed under all 65536 flag words; taken/not-taken must equal the Intel predicate, synonyms must agree, complements must be complementary, nothing else may change", "6 C06"),
- "C07": ("reference-model monitor of string steps and REP loops driven through the driver's REPEAT protocol, full memory diff, CLI end-to-end",
+ "C07": ("reference-model monitor of string steps and REP loops driven through the driver's REPEAT protocol, full memory diff, instruction histories, CLI end-to-end (free, -i, trap flag)",
          "all string ops x width x DF x prefix x CX 0..64 x hostile DS/ES/SI/DI; final state, iteration count and flags compared with the reference REP loop", "6 C07"),
  "C08": ("trace monitor: executed-instruction trace of driver-loop replica and of the real binary (hook records) vs a reference interpreter over the program AST",
          "bounded-exhaustive block sequences plus random structured programs; the sequence of executed source instructions, the way the run ends and the final registers must equal the reference; the real driver's hook trace must equal the replica's", "6 C08"),
